@@ -2,7 +2,7 @@ use std::{fmt, io};
 
 use bitflags::bitflags;
 use bytes::{Bytes, BytesMut};
-use http::{Method, Version};
+use http::{Method, StatusCode, Version};
 use tokio_util::codec::{Decoder, Encoder};
 
 use super::{
@@ -21,6 +21,7 @@ bitflags! {
         const HEAD               = 0b0000_0001;
         const KEEP_ALIVE_ENABLED = 0b0000_1000;
         const STREAM             = 0b0001_0000;
+        const NOT_MODIFIED       = 0b0010_0000;
     }
 }
 
@@ -135,6 +136,10 @@ impl Decoder for ClientCodec {
         );
 
         if let Some((req, payload)) = self.inner.decoder.decode(src)? {
+            self.inner
+                .flags
+                .set(Flags::NOT_MODIFIED, req.status == StatusCode::NOT_MODIFIED);
+
             if let Some(conn_type) = req.conn_type() {
                 // do not use peer's keep-alive
                 self.inner.conn_type = if conn_type == ConnectionType::KeepAlive {
@@ -185,6 +190,29 @@ impl Decoder for ClientPayloadCodec {
             }
             None => None,
         })
+    }
+
+    fn decode_eof(&mut self, src: &mut BytesMut) -> Result<Option<Self::Item>, Self::Error> {
+        if self.inner.payload.is_none() {
+            return Ok(None);
+        }
+
+        match self.decode(src)? {
+            Some(item) => Ok(Some(item)),
+
+            // the connection ended before the payload did; only a payload delimited by the end
+            // of the connection is complete at this point. A 304 response has no body by
+            // definition, so octets missing after it are not an error either.
+            None => match self.inner.payload {
+                Some(ref pl)
+                    if !pl.is_eof_delimited()
+                        && !self.inner.flags.contains(Flags::NOT_MODIFIED) =>
+                {
+                    Err(PayloadError::Incomplete(None))
+                }
+                _ => Ok(None),
+            },
+        }
     }
 }
 
